@@ -5,6 +5,7 @@ import json, os, re, shlex, subprocess, sys, tempfile, shutil
 d = os.path.abspath(sys.argv[1])
 meta = json.load(open(os.path.join(d, "meta.json")))
 cmd = meta["demo_cmd"]
+cmd = re.sub(r"^\s*(cp|mv)\s+\S+\s+\S+\s*(&&|;)\s*", "", cmd)   # the demo file is copied in by this script
 toks = shlex.split(cmd)
 pkg = [t for t in toks if t.startswith("./")][-1].rstrip("/")
 sub = meta.get("demo_module_dir", "")  # e.g. tools/goctl
